@@ -33,14 +33,14 @@ package routing
 //@ ensures forall a in 0..len(t.routes[key]): forall b in a..len(t.routes[key]): t.routes[key][a].Metric <= t.routes[key][b].Metric
 
 //@ func (*Table).AddRoute
-//@ prop C08 C10 C13 C14 C15
+//@ prop C08 C10 C13 C14 C15 C11
 //@ check lockset bounds
 //@ modifies *
 //@ after call String let k = $ret
 //@ loop 0 invariant -1 <= rangeindex && rangeindex < len(route.Path) && forall j in 0..rangeindex+1: route.Path[j] != t.localID
 //@ loop 1 invariant -1 <= rangeindex && rangeindex < len(existing) && forall j in 0..rangeindex+1: existing[j].OriginAgent != route.OriginAgent
-//@ ensures[C10] route != nil && route.Network != nil && (exists j in 0..len(route.Path): old(route.Path[j]) == t.localID) ==> !result
-//@ ensures[C10] route != nil && route.Network != nil && (exists j in 0..len(route.Path): old(route.Path[j]) == t.localID) ==> t.routes == old(t.routes) && len(t.routes[netKey(route.Network)]) == old(len(t.routes[netKey(route.Network)]))
+//@ ensures[C10,C11] route != nil && route.Network != nil && (exists j in 0..len(route.Path): old(route.Path[j]) == t.localID) ==> !result
+//@ ensures[C10,C11] route != nil && route.Network != nil && (exists j in 0..len(route.Path): old(route.Path[j]) == t.localID) ==> t.routes == old(t.routes) && len(t.routes[netKey(route.Network)]) == old(len(t.routes[netKey(route.Network)]))
 //@ ensures[C08,C10] result ==> forall a in 0..len(t.routes[k]): forall b in a..len(t.routes[k]): t.routes[k][a].Metric <= t.routes[k][b].Metric
 //@ ensures[C10,C13,C15] result ==> exists j in 0..len(t.routes[k]): t.routes[k][j].OriginAgent == route.OriginAgent && t.routes[k][j].Metric == route.Metric && t.routes[k][j].NextHop == route.NextHop && t.routes[k][j].Sequence == route.Sequence && len(t.routes[k][j].Path) == len(route.Path)
 //@ at[C10] call (*Route).Clone#0 assert r.OriginAgent == route.OriginAgent && existing[i] == r && (forall j in 0..i: existing[j].OriginAgent != route.OriginAgent)
@@ -160,11 +160,11 @@ package routing
 //@ ensures routeMap == ite(isWildcard, t.wildcardBase, t.exactRoutes)
 
 //@ func (*DomainTable).AddRoute
-//@ prop C09 C10 C13 C15
+//@ prop C09 C10 C13 C15 C11
 //@ check lockset bounds
 //@ modifies *
 //@ loop 0 invariant -1 <= rangeindex && rangeindex < len(route.Path) && forall j in 0..rangeindex+1: route.Path[j] != t.localID
-//@ ensures[C10] route != nil && route.Pattern != "" && (exists j in 0..len(route.Path): old(route.Path[j]) == t.localID) ==> !result
+//@ ensures[C10,C11] route != nil && route.Pattern != "" && (exists j in 0..len(route.Path): old(route.Path[j]) == t.localID) ==> !result
 //@ after call sortRoutesInMap let tm = $1
 //@ after call sortRoutesInMap let k = $2
 //@ loop 1 invariant -1 <= rangeindex && rangeindex < len(targetMap[key])
@@ -174,11 +174,11 @@ package routing
 //@ at[C10] call (*DomainRoute).Clone#0 assert r.OriginAgent == route.OriginAgent && (route.Sequence > r.Sequence || (route.Sequence == r.Sequence && route.Metric < r.Metric))
 
 //@ func (*ForwardTable).AddRoute
-//@ prop C09 C10 C13 C14 C15
+//@ prop C09 C10 C13 C14 C15 C11
 //@ check lockset bounds
 //@ modifies *
 //@ loop 0 invariant -1 <= rangeindex && rangeindex < len(route.Path) && forall j in 0..rangeindex+1: route.Path[j] != t.localID
-//@ ensures[C10] route != nil && route.Key != "" && (exists j in 0..len(route.Path): old(route.Path[j]) == t.localID) ==> !result
+//@ ensures[C10,C11] route != nil && route.Key != "" && (exists j in 0..len(route.Path): old(route.Path[j]) == t.localID) ==> !result
 //@ after call sortRoutes let k = $1
 //@ loop 1 invariant -1 <= rangeindex && rangeindex < len(t.routes[route.Key])
 //@ ensures[C09,C10] result ==> k == route.Key
@@ -188,11 +188,11 @@ package routing
 //@ ensures[C14] !result && route != nil && route.Key != "" && !(exists j in 0..len(route.Path): route.Path[j] == t.localID) ==> exists j in 0..len(t.routes[route.Key]): t.routes[route.Key][j].OriginAgent == route.OriginAgent && !(route.Sequence > t.routes[route.Key][j].Sequence || (route.Sequence == t.routes[route.Key][j].Sequence && route.Metric < t.routes[route.Key][j].Metric))
 
 //@ func (*AgentTable).AddRoute
-//@ prop C09 C10 C13 C14 C15
+//@ prop C09 C10 C13 C14 C15 C11
 //@ check lockset bounds
 //@ modifies *
 //@ loop 0 invariant -1 <= rangeindex && rangeindex < len(route.Path) && forall j in 0..rangeindex+1: route.Path[j] != t.localID
-//@ ensures[C10] route != nil && (exists j in 0..len(route.Path): old(route.Path[j]) == t.localID) ==> !result
+//@ ensures[C10,C11] route != nil && (exists j in 0..len(route.Path): old(route.Path[j]) == t.localID) ==> !result
 //@ after call sortRoutes let k = $1
 //@ loop 1 invariant -1 <= rangeindex && rangeindex < len(t.routes[route.AgentID])
 //@ ensures[C09,C10] result ==> k == route.AgentID
@@ -406,3 +406,61 @@ package routing
 //@ check lockset
 //@ modifies *
 //@ at call filterRoutesFromPeer assert $1 == peerID
+
+// ---- C09: removing one origin's route from a key keeps the order of the others (forward-key and agent tables) ----
+
+//@ func (*ForwardTable).RemoveRoute
+//@ prop C09 C10
+//@ check lockset bounds
+//@ modifies *
+//@ after call Lock let n0 = len(t.routes[key])
+//@ after call Lock let wasSorted = forall a in 0..len(t.routes[key]): forall b in a..len(t.routes[key]): t.routes[key][a].Metric <= t.routes[key][b].Metric
+//@ loop 0 invariant -1 <= rangeindex && rangeindex < len(routes) && routes == t.routes[key] && len(routes) == n0 && forall j in 0..rangeindex+1: routes[j].OriginAgent != originAgent
+//@ ensures[C10] result && key != "" ==> len(t.routes[key]) == n0 - 1 || !has(t.routes, key)
+//@ ensures[C09] result && key != "" && wasSorted && has(t.routes, key) && len(t.routes[key]) >= 2 ==> t.routes[key][0].Metric <= t.routes[key][1].Metric
+//@ ensures[C09] result && key != "" && wasSorted && has(t.routes, key) && len(t.routes[key]) >= 3 ==> t.routes[key][1].Metric <= t.routes[key][2].Metric
+//@ ensures[C09] result && key != "" && wasSorted && has(t.routes, key) && len(t.routes[key]) >= 4 ==> t.routes[key][2].Metric <= t.routes[key][3].Metric
+//@ note BOUNDED (k = 4): instances for the first four entries of "a list sorted by metric when the lock was taken is still sorted after the removal" (as for (*Table).RemoveRoute)
+//@ ensures[C10] !result && key != "" ==> forall j in 0..len(t.routes[key]): t.routes[key][j].OriginAgent != originAgent
+
+//@ func (*AgentTable).RemoveRoute
+//@ prop C09 C10
+//@ check lockset bounds
+//@ modifies *
+//@ after call Lock let n0 = len(t.routes[agentID])
+//@ after call Lock let wasSorted = forall a in 0..len(t.routes[agentID]): forall b in a..len(t.routes[agentID]): t.routes[agentID][a].Metric <= t.routes[agentID][b].Metric
+//@ loop 0 invariant -1 <= rangeindex && rangeindex < len(routes) && routes == t.routes[agentID] && len(routes) == n0 && forall j in 0..rangeindex+1: routes[j].OriginAgent != originAgent
+//@ ensures[C10] result ==> len(t.routes[agentID]) == n0 - 1 || !has(t.routes, agentID)
+//@ ensures[C09] result && wasSorted && has(t.routes, agentID) && len(t.routes[agentID]) >= 2 ==> t.routes[agentID][0].Metric <= t.routes[agentID][1].Metric
+//@ ensures[C09] result && wasSorted && has(t.routes, agentID) && len(t.routes[agentID]) >= 3 ==> t.routes[agentID][1].Metric <= t.routes[agentID][2].Metric
+//@ ensures[C09] result && wasSorted && has(t.routes, agentID) && len(t.routes[agentID]) >= 4 ==> t.routes[agentID][2].Metric <= t.routes[agentID][3].Metric
+//@ note BOUNDED (k = 4): as above
+//@ ensures[C10] !result ==> forall j in 0..len(t.routes[agentID]): t.routes[agentID][j].OriginAgent != originAgent
+
+// ---- the four sort helpers are trusted as wholes ("sort.Slice with the metric comparison sorts"); what is checked of
+// their bodies: each calls nothing but sort.Slice, and its comparison closure is exactly "metric of i below metric of j"
+// over the list read from the table ----
+
+//@ callsonly[C08,C13] (*Table).sortRoutes: sort.Slice
+//@ callsonly[C09,C13] (*DomainTable).sortRoutesInMap: sort.Slice
+//@ callsonly[C09,C13] (*ForwardTable).sortRoutes: sort.Slice
+//@ callsonly[C09,C13] (*AgentTable).sortRoutes: sort.Slice
+
+//@ func (*Table).sortRoutes$1
+//@ prop C08 C13
+//@ ensures result <==> routes[i].Metric < routes[j].Metric
+
+//@ func (*DomainTable).sortRoutesInMap$1
+//@ prop C09 C13
+//@ ensures result <==> routes[i].Metric < routes[j].Metric
+
+//@ func (*ForwardTable).sortRoutes$1
+//@ prop C09 C13
+//@ ensures result <==> routes[i].Metric < routes[j].Metric
+
+//@ func (*AgentTable).sortRoutes$1
+//@ prop C09 C13
+//@ ensures result <==> routes[i].Metric < routes[j].Metric
+
+// ---- C14: the local sequence counter moves only in steps of one, in the functions that stamp an announcement with it ----
+//@ fieldwritesonly[C14] Manager.sequence: (*Manager).AddDynamicRoute, (*Manager).AddLocalDomainRoute, (*Manager).AddLocalForwardRoute, (*Manager).AddLocalRoute, (*Manager).IncrementSequence
